@@ -27,6 +27,12 @@ type c16Conn struct {
 	prior  []string
 }
 
+type c16SuitesFault struct {
+	Hex     string
+	K       int
+	Variant int
+}
+
 type c16DCMI struct {
 	Counts   [3]int
 	PageSize int
@@ -168,6 +174,10 @@ func c16Exec(run *ev.Run, c ev.Case) {
 			return
 		}
 		c16RunSuites(run, unhex(s.Hex), "replay")
+	case "suites-fault":
+		var f c16SuitesFault
+		c.Decode(&f)
+		c16RunSuitesFault(run, unhex(f.Hex), f.K, f.Variant)
 	case "dcmi":
 		var d c16DCMI
 		c.Decode(&d)
@@ -237,6 +247,13 @@ func c16Exec(run *ev.Run, c ev.Case) {
 					}
 				}
 				c16RunSuites(run, data, "valid")
+				if i%5 == 1 && len(data) > 16 {
+					// the enumeration fails part-way: a list index that still has data behind it is refused, or
+					// every reply to it is lost (a refusal of the empty chunk after an exact multiple of 16
+					// bytes is left out: the list is complete by then, and the property does not say which
+					// of error and list is right)
+					c16RunSuitesFault(run, data, 1+r.Intn((len(data)-1)/16), i/5)
+				}
 				if i%2 == 0 {
 					// the same retrieval on a connection that has done retrievals before
 					if shared == nil || len(shared.prior) > 40 {
@@ -365,6 +382,58 @@ func c16RunSuitesOn(run *ev.Run, data []byte, class string, conn *c16Conn) {
 	}
 	if len(data)%16 == 0 && len(data) > 16 && len(data) < 70 {
 		run.Sample("suites", map[string]any{"record_data": ev.Hex(data), "chunks_requested": chunks, "entries": len(want)})
+	}
+}
+
+// c16RunSuitesFault serves valid record data up to list index k-1 and fails every request for
+// index k and later: with a permanent completion code, or by never delivering a usable reply
+// until the (logically bounded) context ends. Whatever prefix was gathered, the result must be an
+// error and no list.
+func c16RunSuitesFault(run *ev.Run, data []byte, k int, variant int) {
+	run.Eval(1)
+	modes := []string{"cc:c1", "lost", "cc:cc", "garbage", "cc:d4", "cc:ff", "cc:c9", "cc:80"}
+	mode := modes[variant%len(modes)]
+	cs := ev.MkCase("suites-fault", c16SuitesFault{Hex: ev.Hex(data), K: k, Variant: variant})
+	cfg := defaultCfg(rng(int64(len(data)), "c16cfg"))
+	e := NewEnv(cfg, memtr.Window)
+	server := &refbmc.CipherSuiteServer{Channel: 2, Data: data}
+	failing := false
+	e.BMC.Handler = func(evn *refbmc.Event) (byte, []byte, bool) {
+		failing = false
+		if evn.NetFn == 6 && evn.Cmd == 0x54 && len(evn.Data) == 3 && int(evn.Data[2]&0x3f) >= k {
+			failing = true
+			if len(mode) > 3 && mode[:3] == "cc:" {
+				return unhex(mode[3:])[0], nil, true
+			}
+		}
+		return server.Handle(evn)
+	}
+	e.Filter = func(n int, req, reply []byte) ([]byte, error) {
+		if failing && mode == "lost" {
+			return nil, nil
+		}
+		if failing && mode == "garbage" {
+			return []byte{6, 0, 0xff, 7, 6, 0x55, 1}, nil
+		}
+		return reply, nil
+	}
+	ctx, cancel := e.LimitCtx(k + 6)
+	defer cancel()
+	var got []ipmi.CipherSuiteRecord
+	var err error
+	pv, st := safe(func() { got, err = bmc.RetrieveSupportedCipherSuites(ctx, e.ST) })
+	desc := fmt.Sprintf("cipher suite data (%d bytes) %x with list index %d and later failing (%s)", len(data), data, k, mode)
+	if pv != nil {
+		run.Violation("C16:suites:panic:"+panicSite(st), fmt.Sprintf("%s: %v\n%s", desc, pv, trimStack(st)), cs, nil)
+		return
+	}
+	_, prefixParses := c16RefParse(data[:16*k])
+	run.Nontrivial(fmt.Sprintf("suites-fault|%s|%v|%d", mode, prefixParses, k))
+	run.Event("cipher-suite-requests", len(server.Requests))
+	if err == nil {
+		run.Violation("C16:suites:partial-list-after-failure", fmt.Sprintf("%s: %d entries and no error although the enumeration never got past list index %d (the chunks before it parse on their own: %v)", desc, len(got), k, prefixParses), cs, nil)
+	} else if len(got) != 0 {
+		run.Violation("C16:suites:partial-list-with-error", fmt.Sprintf("%s: error %v together with %d entries", desc, err, len(got)), cs, nil)
 	}
 }
 
